@@ -482,6 +482,16 @@ def run(chk, tier):
             ty = "S<i32, NoFmt>" if "<T, U>" in item else "S<i32>"
             mod = "use super::*;\npub trait Own { type Out; }\nmacro_rules! IdTy { ($t:ty) => { $t } }\n#[derive(derive_more::%s)]\n%s\n%s\npub fn run(r: &mut R) { %s::<%s>(); r.check(\"impl available\", true); }" % (derive, item, extra, fn, ty)
             cases.append(Case("c%d" % len(cases), mod, meta={"src": "#[derive(%s)] %s %s" % (derive, item, extra), "inst": ty}))
+    # recursive generic types: the bound for the derived trait on a field type naming the deriving type itself can never be resolved
+    for derive, item, ty in (
+            ("Display", 'enum S<T> { Lit(T), #[display("-{_0}")] Neg(Box<S<T>>), #[display("({_0} + {_1})")] Add(Box<S<T>>, Box<S<T>>) }', "S<i32>"),
+            ("Display", '#[display("{v}{}", next.as_ref().map(|n| n.to_string()).unwrap_or_default())] struct S<T> { v: T, next: Option<Box<S<T>>> }', "S<i32>"),
+            ("Display", 'enum S<T, U> { #[display("{_0}")] A(T), #[display("{_0}|{_1}")] B(U, Box<S<T, U>>), #[display("x")] C(::core::marker::PhantomData<(T, U)>) }', "S<i32, i32>"),
+            ("Debug", 'struct S<T> { v: T, next: Option<Box<S<T>>> }', "S<i32>"),
+            ("Debug", 'enum S<T> { Leaf(T), #[debug("node{_0:?}")] Node(Vec<S<T>>) }', "S<i32>")):
+        fn = "assert_impl" if derive == "Display" else "assert_impl_debug"
+        mod = "use super::*;\n#[derive(derive_more::%s)]\n%s\npub fn run(r: &mut R) { %s::<%s>(); r.check(\"impl available\", true); }" % (derive, item, fn, ty)
+        cases.append(Case("c%d" % len(cases), mod, meta={"src": "#[derive(%s)] %s" % (derive, item), "inst": ty}))
     eng = CompileEngine("C04", prelude=PRELUDE, per_bin=max(8, len(cases) // 16 + 1))
     results = eng.run_cases(cases)
     for c in cases:
